@@ -26,6 +26,7 @@ U == {
   E("src/a.rs~", "file", "rs~", TRUE, 0),
   E("src/sp ace.rs", "file", "rs", TRUE, 0),
   E("src/x.inc", "file", "inc", TRUE, 0),
+  E("src/readonly.rs", "file", "rs", TRUE, 0),        \* mode 0444: replacing a file needs a writable directory, not a writable file
   E("src/hardlinked.rs", "file", "rs", TRUE, 0),      \* has a second hard link outside the source directory
   E("outside/o.rs", "file", "rs", FALSE, 0),
   E("top.rs", "file", "rs", FALSE, 0),
